@@ -378,9 +378,9 @@ class Env:
             da = self.arrays[call["da"]]
             t = call["target"]
             if isinstance(t, dict):
-                target = xr.DataArray(np.asarray(t["values"], dtype=np.float64), dims=[nm(d) for d in t["dims"]])
+                target = xr.DataArray(np.asarray(t["values"], dtype=call.get("target_dtype", "float64")), dims=[nm(d) for d in t["dims"]])
             else:
-                target = np.asarray(t, dtype=np.float64)
+                target = np.asarray(t, dtype=call.get("target_dtype", "float64"))
             kw = {"method": call.get("method", "linear")}
             if call.get("target_data") is not None:
                 kw["target_data"] = self.arrays[call["target_data"]]
